@@ -174,11 +174,17 @@ fn mutate(tree: &MerkleTree<H>, n: usize, idx: &[usize], count: &mut u64) {
     // position mutations: each position replaced by an out-of-range or duplicated one, or by another
     // position that is not opened (the claimed leaf then belongs to a different cell)
     for k in 0..idx.len() {
-        for bad in [n, n + 1, usize::MAX] {
+        // out-of-range positions, including the ones congruent to the honest position modulo the number of leaves (the path
+        // bits of such a position are those of the honest one)
+        let top = usize::MAX - (usize::MAX % n) - n + idx[k];
+        for bad in [n, n + 1, usize::MAX, idx[k] + n, idx[k] + 2 * n, idx[k] + 3 * n, top] {
             let mut v = idx.to_vec();
             v[k] = bad;
             if guarded("get_root with an out-of-range position", n, &v, || honest.get_root(&v)).is_ok() {
                 fail("out-of-range position accepted by get_root", n, &v, "");
+            }
+            if guarded("verify_batch with an out-of-range position", n, &v, || MerkleTree::<H>::verify_batch(tree.root(), &v, &honest)).is_ok() {
+                fail("out-of-range position accepted by verify_batch", n, &v, "");
             }
             if guarded("prove_batch with an out-of-range position", n, &v, || tree.prove_batch(&v)).is_ok() {
                 fail("out-of-range position accepted by prove_batch", n, &v, "");
@@ -251,6 +257,23 @@ fn merkle_batch_openings_bounded() {
             q.resize(70, H::hash(b"pad"));
             if guarded("verify with an over-long path", n, &[i], || MerkleTree::<H>::verify(*tree.root(), i, &q)).is_ok() {
                 fail("over-long single opening verifies", n, &[i], "len=70");
+            }
+        }
+        // position mutations of a single opening: every other in-range index, and out-of-range indices - among them the
+        // ones congruent to the honest index modulo the number of leaves (same path bits) and the largest ones (index + 2^depth
+        // must not overflow)
+        for i in 0..n {
+            let p = tree.prove(i).unwrap();
+            for j in 0..n {
+                if j != i && MerkleTree::<H>::verify(*tree.root(), j, &p).is_ok() {
+                    fail("single opening verifies at another position", n, &[i, j], "");
+                }
+            }
+            let top = usize::MAX - (usize::MAX % n) - n + i;
+            for bad in [n, i + n, i + 2 * n, i + 7 * n, top, usize::MAX, usize::MAX - 1] {
+                if guarded("verify with an out-of-range index", n, &[i, bad], || MerkleTree::<H>::verify(*tree.root(), bad, &p)).is_ok() {
+                    fail("single opening verifies at an out-of-range position", n, &[i, bad], "");
+                }
             }
         }
         if tree.prove(n).is_ok() {
